@@ -141,6 +141,11 @@ def install(reg):
         return VStr(f(str_term(p, args[0]), str_term(p, args[1])))
     E["os.path.relpath"] = os_path_relpath
 
+    def os_path_isabs(p, args, kw):
+        p.engine.assumption("POSIX: os.path.isabs(p) == p.startswith('/')")
+        return VBool(z3.PrefixOf(z3.StringVal("/"), str_term(p, args[0])))
+    E["os.path.isabs"] = os_path_isabs
+
     def os_getcwd(p, args, kw):
         return VStr(p.engine.uf("getcwd", I, S)(z3.IntVal(0)))
     E["os.getcwd"] = os_getcwd
